@@ -417,11 +417,22 @@ class AEval(dtable.Eval):
         self.depth += 1
         try:
             try:
-                return self.ex(fn.body, env)
+                return self._coerce_ret(fn, self.ex(fn.body, env))
             except Ret as r:
                 return r.value
         finally:
             self.depth -= 1
+
+    @staticmethod
+    def _coerce_ret(fn, v):
+        """`iter.map(|x| Ok(..)).collect()` as the tail of a function returning Result<Vec<..>>: the first Err, or Ok(list)"""
+        out = (fn.node.get("sig", {}).get("output") or "").replace(" ", "")
+        if out.startswith("Result<") and not isinstance(v, str) and v[0] == "list" and all(x[0] == "ctor" and x[1] in ("Ok", "Err") for x in v[1]):
+            for x in v[1]:
+                if x[1] == "Err":
+                    return x
+            return C("Ok", L(*[x[2][0] for x in v[1]]))
+        return v
 
     def call(self, e, env):
         f = e["func"]
@@ -508,7 +519,7 @@ class AEval(dtable.Eval):
                     args2[int(mem)] = ("list", tuple(cur))
                     env[rnode["base"]["path"]] = ("ctor", holder[1], tuple(args2)) + tuple(holder[3:])
                 return UNIT
-        if m in ("write_str", "push_str", "write_char", "push") and len(e["args"]) == 1 and is_node(rnode) and rnode["k"] == "Path" \
+        if m in ("write_str", "push_str", "write_char", "push") and m not in self.builtins and len(e["args"]) == 1 and is_node(rnode) and rnode["k"] == "Path" \
                 and not (rnode["path"] in env and env[rnode["path"]][0] == "list"):
             v = self.ex(e["args"][0], env)
             self.out.append(v)
@@ -548,6 +559,8 @@ class AEval(dtable.Eval):
             return C("Ok", L(*[x[2][0] for x in r[1]]))
         if r[0] in ("int",) and m in ("is_finite",) and not args:
             return B(True)
+        if r[0] == "atom" and m in ("clone", "to_owned", "as_ref", "as_mut", "borrow", "borrow_mut", "deref", "into", "cloned", "copied") and not args:
+            return r
         if r[0] == "atom" and not r[1].startswith("expr:") and not r[1].startswith("lit:"):
             return A("%s.%s" % (r[1], m))
         if m in self.funcs and r[0] != "list" and not (m in ("map", "iter") and r[0] in ("ctor",) and r[1] in ("Some", "None")):
@@ -886,7 +899,7 @@ class AEval(dtable.Eval):
                 raise Unknown("parameter pattern")
             env.update(b)
         try:
-            return self.ex(fn.body, env)
+            return self._coerce_ret(fn, self.ex(fn.body, env))
         except Ret as r:
             return r.value
 
